@@ -704,7 +704,9 @@ class G:
     if cfg.with_:
       opts += ["with"]
     if cfg.finally_:
-      opts += ["try-finally", "try-else"]
+      opts += ["try-finally", "try-else", "try-as-if-finally",
+               "try-return-finally", "try-multi"]
+    opts += ["nested-literal", "big-literal"]
     if cfg.match:
       opts += ["match", "match-class", "match-seq"]
     if cfg.decorators:
@@ -783,6 +785,53 @@ class G:
       env[v] = "int"
       return ["%s = 0" % v, "try:", "  %s = %s" % (v, e("int")),
               "finally:", "  %s = %s" % (self.fresh("f"), e("str"))]
+    if o == "try-as-if-finally":
+      f = self.fresh("f")
+      env[v] = "int"
+      return ["def %s(x):" % f, "  try:", "    q_ = int(x)",
+              "  except (ValueError, TypeError) as e_:",
+              "    if x:", "      q_ = len(str(e_))", "    else:",
+              "      q_ = -1", "  finally:", "    w_ = 0", "  return q_",
+              "%s = %s('7')" % (v, f)]
+    if o == "try-return-finally":
+      f = self.fresh("f")
+      env[v] = ("union", "int", "str")
+      return ["def %s(x):" % f, "  for i_ in range(2):", "    try:",
+              "      if x: return i_", "    except KeyError as e_:",
+              "      if i_: continue", "      return str(e_)",
+              "    finally:", "      x = not x", "  return 0",
+              "%s = %s(%s)" % (v, f, self.expr(env, "bool", 0))]
+    if o == "try-multi":
+      env[v] = ("union", "int", "str", "none")
+      return ["try:", "  %s = int('1')" % v, "except ValueError:",
+              "  %s = 's'" % v, "except (KeyError, IndexError) as ex_:",
+              "  %s = None" % v, "  raise", "else:", "  pass", "finally:",
+              "  pass"]
+    if o == "nested-literal":
+      env[v] = ("set", ("tuple", "int", "str"))
+      shape = self.pick(["{(1, 2), (3, 'a')}", "[(1, 'a'), (2, 'b')]",
+                         "{(1, 2): 'x', (3, 4): 'y'}", "{(1, (2, 3))}",
+                         "((1, 2), [3, (4, 5)], {6: (7,)})",
+                         "{frozenset({1}), frozenset({2})}",
+                         "[[1, 2], [3, [4, 5]], []]", "{'a': {'b': {'c': 1}}}",
+                         "[None, (), [], {}, '', b'', 0.0]"])
+      return ["%s = %s" % (v, shape)]
+    if o == "big-literal":
+      env[v] = ("list", "int")
+      n = self.pick([63, 64, 65, 70, 130])
+      kind = self.pick(["ints", "tuples", "dict", "mixed", "strs"])
+      if kind == "ints":
+        body = "[%s]" % ", ".join(str(i) for i in range(n))
+      elif kind == "tuples":
+        body = "[%s]" % ", ".join("(%d, 'a')" % i for i in range(n))
+      elif kind == "dict":
+        body = "{%s}" % ", ".join("(%d, %d): %d" % (i, i, i) for i in range(n))
+      elif kind == "strs":
+        body = "{%s}" % ", ".join("'k%d'" % i for i in range(n))
+      else:
+        body = "[%s]" % ", ".join(["1", "'a'", "(1, 2)", "None"][i % 4]
+                                  for i in range(n))
+      return ["%s = %s" % (v, body)]
     if o == "try-else":
       env[v] = ("union", "int", "str")
       return ["try:", "  t_ = int('3')", "except (ValueError, TypeError) as ex_:",
